@@ -64,6 +64,8 @@ def required_cells(tier):
     for a, b in PAIRS:
         req["pair:%s,%s" % (a, b)] = 50 if q else 1000
     req["none-operand"] = 50
+    for hc in ("used-then-moved/receiver", "used-then-moved/returned", "moved/receiver"):
+        req["pose:history/" + hc] = 30
     return req
 
 
@@ -82,7 +84,7 @@ def cases(rng, budget, widx, nworkers, tier):
             yield {"none": True, "a": gen.rand_obj(rng, ka, small=sm()), "label": "none-operand", "ls": rng.getrandbits(30)}
             continue
         (a, b), label = gen.gen_pair(rng, ka, kb, small=sm())
-        yield {"a": a, "b": b, "label": label, "ls": rng.getrandbits(30)}
+        yield C.maybe_hist({"a": a, "b": b, "label": label, "ls": rng.getrandbits(30)}, rng)
 
 
 def _judge_none(case):
@@ -117,6 +119,7 @@ def judge(case):
     ka, kb = a[0], b[0]
     mu = core.Multi()
     mu.cell("pair:%s,%s" % (ka, kb), "gen:" + case["label"])
+    mu.cell(*C.hist_cell(case))
     x, y = C.lift_pair(case)
     forms = [("intersection(a,b)", G.intersection, x, y), ("intersection(b,a)", G.intersection, y, x)]
     if ka != "P":
@@ -159,7 +162,10 @@ def setup():
 
 
 def worker_report():
-    return dict(_diag)
+    _h = {"operand_histories": dict(C.HIST_STATS)}
+    d = dict(_diag)
+    d.update(_h)
+    return d
 
 
 describe = lambda case: C.describe_pair(case) if "b" in case else {"x": C.show_short(case["a"], 200), "label": "none-operand"}
